@@ -124,13 +124,12 @@ def main():
             # ---- K2: model vs implementation
             # VERIF_NO_ORDERS=1: do not feed the recorded topological orders: the model then uses its own default order oracle
             # (an experiment switch to measure how faithfully that oracle reproduces networkx; never set by ./check)
-            res = model.run(spec, obs['actions'], () if os.environ.get('VERIF_NO_ORDERS') else obs['orders'], obs['descendants'])
+            res = model.run(spec, obs['actions'], () if os.environ.get('VERIF_NO_ORDERS') else obs['orders'], obs['descendants'],
+                            hyps=(1 if (s == 0 and frag == 'Plain' and len(spec['nodes']) <= 12) else 0))
             d = []
             # hypotheses of the kind-F theorems, evaluated by the extracted model on the orders recorded from the real chart
             if res.get('plain') and not res.get('ambiguous_orders'):
                 st['plain_programs_runs'] += 1
-                if res.get('orders_valid') and res.get('orders_by_depth'):
-                    st['plain_c06_hypotheses_hold'] += 1
                 if res.get('orders_valid'):
                     st['plain_hypotheses_hold'] += 1
                     if obs['verdict'] == 'deadlock':
